@@ -584,11 +584,11 @@ class TriInterp:
         if h is not None:
             return h
         # (function of the) byte vs const int
-        if _bf(l) is not None and _cint(r) is not None and not isinstance(
+        if _bf(l) is not None and _cnum(r) is not None and not isinstance(
                 op, (ast.In, ast.NotIn)):
             f = _bf(l)
             return self._split_byte(p, lambda b: _cmp(op, f(b), r.val))
-        if _bf(r) is not None and _cint(l) is not None and not isinstance(
+        if _bf(r) is not None and _cnum(l) is not None and not isinstance(
                 op, (ast.In, ast.NotIn)):
             f = _bf(r)
             return self._split_byte(p, lambda b: _cmp(op, l.val, f(b)))
@@ -1056,6 +1056,15 @@ def _bf(v):
 def _cint(v):
     if v.kind == "const" and isinstance(v.val, int) and not isinstance(
             v.val, bool):
+        return v.val
+    return None
+
+
+def _cnum(v):
+    """a constant number a byte can be compared with (float('inf') as the
+    bound that never binds)"""
+    if v.kind == "const" and isinstance(v.val, (int, float)) and \
+            not isinstance(v.val, bool):
         return v.val
     return None
 
